@@ -76,8 +76,9 @@ func (op *tagValuesLookup) findTagValueIDsByExpr(expr stmt.Expr) {
 		if tagValueIDs == nil {
 			tagValueIDs = roaring.New()
 		}
-		// save atomic tag filter result
-		op.executeCtx.TagFilterResult[expr.Rewrite()] = &flow.TagFilterResult{
+		// save atomic tag filter result, keyed by the marshalled filter: Rewrite() is not injective
+		// (e.g. `k in ('a,b')` and `k in ('a','b')` rewrite to the same string).
+		op.executeCtx.TagFilterResult[string(stmt.Marshal(expr))] = &flow.TagFilterResult{
 			TagKeyID:    tagKeyID,
 			TagValueIDs: tagValueIDs,
 		}
